@@ -224,8 +224,10 @@ def verify_unit(unit, tier, seed):
     r = {'unit': unit.name}
     asm = assemble(unit, canary=False)
     casm = assemble(unit, canary=True)
-    path = os.path.join(BUILD, f'u_{unit.name}.rs')
-    cpath = os.path.join(BUILD, f'u_{unit.name}_canary.rs')
+    bdir = os.path.join(BUILD, 'p%d' % os.getpid())
+    os.makedirs(bdir, exist_ok=True)
+    path = os.path.join(bdir, f'u_{unit.name}.rs')
+    cpath = os.path.join(bdir, f'u_{unit.name}_canary.rs')
     open(path, 'w').write('\n'.join(asm.out.lines) + '\n')
     open(cpath, 'w').write('\n'.join(casm.out.lines) + '\n')
     listed, illegal = assumption_scan(asm)
@@ -324,7 +326,7 @@ def write_replay(pid, fl, ur, prop):
         if clause is not None:
             fh.write(f'clause ({clause.kind}) tagged {clause.props}:\n    {clause.text}\n\n')
         fh.write(f'verifier message   {fl.message}\n')
-        fh.write(f'unit               {ur["unit"]} (assembled file build/u_{ur["unit"]}.rs)\n')
+        fh.write(f'unit               {ur["unit"]} (assembled from units/{ur["unit"]}.vu; reassemble with ./check)\n')
         fh.write(f'reproduce          cd /verif && ./check {pid} --tier quick   # or: {ur["cmd"]}\n\n')
         fh.write('--- verifier diagnostic (verbatim) ---\n')
         fh.write(fl.rendered + '\n')
@@ -413,8 +415,11 @@ def run_property(pid, tier, seed, units, quiet=False):
         'wall_s': round(time.time() - t0, 2),
         'violations': len(violations),
     }
-    os.makedirs(os.path.join(VERIF, 'evidence'), exist_ok=True)
-    with open(os.path.join(VERIF, 'evidence', pid + '.json'), 'w', encoding='utf-8') as fh:
+    # evidence of record is only written for /repo itself; scratch trees (self-test mutants) go elsewhere
+    evdir = os.path.join(VERIF, 'evidence') if os.path.realpath(os.environ.get('VERIF_REPO', '/repo')) == '/repo' \
+        else os.path.join(BUILD, 'evidence_scratch')
+    os.makedirs(evdir, exist_ok=True)
+    with open(os.path.join(evdir, pid + '.json'), 'w', encoding='utf-8') as fh:
         json.dump(ev, fh, indent=1)
     # ---- report
     for fl, k in known_hits:
@@ -479,4 +484,5 @@ def main(argv):
             rc = max(rc, r) if r != 1 else 1 if rc != 1 else 1
         return rc
     r, _ = run_property(a.pid, tier, seed, units)
+    shutil.rmtree(os.path.join(BUILD, 'p%d' % os.getpid()), ignore_errors=True)
     return r
